@@ -13,21 +13,25 @@ namespace BfeVerif.C15
 
 /-- **one snapshot per request**: in every interleaving, every routing read of request `i` sees the version its
     `GetServerConf()` captured, and that version passed `LoadServerDataConf` completely. -/
-theorem C15_snapshot (steps : List Step) (i v : Nat) (h : v ∈ ((runSteps St.init steps).reqs i).reads) :
+theorem C15_snapshot (sites : List (String × String)) (hc : pathClean sites = true)
+    (steps : List Step) (hs : Conforms (pathClean sites) steps) (i v : Nat)
+    (h : v ∈ ((runSteps St.init steps).reqs i).reads) :
     ((runSteps St.init steps).reqs i).snap = some v ∧ v ∈ (runSteps St.init steps).valid := by
-  have inv := inv_run steps St.init inv_init
+  have inv := inv_run steps (hs hc) St.init inv_init
   exact ⟨inv.reads_snap i v h, inv.snap_valid i v (inv.reads_snap i v h)⟩
 
 /-- all reads of one request agree (no request is served half by the old and half by the new configuration) -/
-theorem C15_single_version (steps : List Step) (i v w : Nat)
+theorem C15_single_version (sites : List (String × String)) (hc : pathClean sites = true)
+    (steps : List Step) (hs : Conforms (pathClean sites) steps) (i v w : Nat)
     (hv : v ∈ ((runSteps St.init steps).reqs i).reads) (hw : w ∈ ((runSteps St.init steps).reqs i).reads) : v = w := by
-  have h1 := (C15_snapshot steps i v hv).1
-  have h2 := (C15_snapshot steps i w hw).1
+  have h1 := (C15_snapshot sites hc steps hs i v hv).1
+  have h2 := (C15_snapshot sites hc steps hs i w hw).1
   rw [h1] at h2; injection h2
 
 /-- **in-flight requests keep their snapshot**: whatever happens after the snapshot (any number of reloads), the
     request's snapshot is unchanged, hence all its later reads still see that version. -/
-theorem C15_inflight_keeps (pre post : List Step) (i v : Nat)
+theorem C15_inflight_keeps (sites : List (String × String)) (hc : pathClean sites = true)
+    (pre post : List Step) (hconf : Conforms (pathClean sites) (pre ++ post)) (i v : Nat)
     (h : ((runSteps St.init pre).reqs i).snap = some v) :
     ((runSteps St.init (pre ++ post)).reqs i).snap = some v ∧
     ∀ w ∈ ((runSteps St.init (pre ++ post)).reqs i).reads, w = v := by
@@ -35,21 +39,46 @@ theorem C15_inflight_keeps (pre post : List Step) (i v : Nat)
     simp only [runSteps, List.foldl_append]
     exact snap_stable_run post _ i v h
   refine ⟨hs, fun w hw => ?_⟩
-  have := (C15_snapshot (pre ++ post) i w hw).1
+  have := (C15_snapshot sites hc (pre ++ post) hconf i w hw).1
   rw [hs] at this; injection this with this; exact this.symm
 
 /-- **a failed reload is invisible**: the version the server holds, and every version a request can see, is the
     initial one or one whose load succeeded. -/
-theorem C15_only_loaded_versions (steps : List Step) :
+theorem C15_only_loaded_versions (sites : List (String × String)) (hc : pathClean sites = true)
+    (steps : List Step) (hs : Conforms (pathClean sites) steps) :
     ((runSteps St.init steps).cur = 0 ∨ Step.load (runSteps St.init steps).cur true ∈ steps) ∧
     ∀ i v, ((runSteps St.init steps).reqs i).snap = some v → v = 0 ∨ Step.load v true ∈ steps := by
-  have inv := inv_run steps St.init inv_init
+  have inv := inv_run steps (hs hc) St.init inv_init
   have key : ∀ v, v ∈ (runSteps St.init steps).valid → v = 0 ∨ Step.load v true ∈ steps := by
     intro v hv
     rcases valid_run steps St.init v hv with h | h
     · left; simpa [St.init] using h
     · exact Or.inr h
   exact ⟨key _ inv.cur_valid, fun i v h => key v (inv.snap_valid i v h)⟩
+
+/-- **one snapshot site per request, none in the request path** — checked on the table regenerated from the CURRENT
+    bfe_server/*.go: every `GetServerConf()` call / `ServerConf` access lies in a white-listed function (none of them is
+    ReverseProxy.ServeHTTP, findProduct, findCluster, FindLocation, clusterInvoke, conn.serve …) and each
+    request-entry function (conn.readRequest, ProtocolHandler.ServeHTTP, BfeServer.Balance) has exactly one.
+    A new call such as `srv.GetServerConf()` inside ReverseProxy.ServeHTTP makes this fail. -/
+theorem C15_request_path_clean : pathClean BfeVerif.Generated.C15.snapshotSites = true := by decide
+
+/-- the snapshot theorems for the code as it is now: every step sequence without live reads -/
+theorem C15_snapshot_current (steps : List Step) (hs : Conforms (pathClean BfeVerif.Generated.C15.snapshotSites) steps)
+    (i v w : Nat) (hv : v ∈ ((runSteps St.init steps).reqs i).reads) (hw : w ∈ ((runSteps St.init steps).reqs i).reads) :
+    v = w ∧ ((runSteps St.init steps).reqs i).snap = some v :=
+  ⟨C15_single_version _ C15_request_path_clean steps hs i v w hv hw,
+   (C15_snapshot _ C15_request_path_clean steps hs i v hv).1⟩
+
+/-- why the table matters: ONE live read in the request path (the cluster lookup reading `GetServerConf()`) lets a
+    reload that lands between snapshot and lookup tear the request: routed under version 0, resolved under 7. -/
+theorem C15_witness_live_read :
+    ((runSteps St.init [.snap 1, .read 1, .load 7 true, .swap 7, .read 1, .readLive 1]).reqs 1).reads = [0, 0, 7] := by
+  decide
+
+example : pathClean (("ReverseProxy.ServeHTTP", "GetServerConf") :: BfeVerif.Generated.C15.snapshotSites) = false := by decide
+example : Conforms true [.snap 1, .load 7 true, .swap 7, .read 1] := by
+  intro _ i h; simp at h
 
 /-- **lock-set theorem** (generic): if every access site of a field holds the RWMutex (writes exclusively), no
     reachable state has two threads inside conflicting accesses. -/
